@@ -103,7 +103,14 @@ def make_arrays():
     x2 = sparse.COO(x1)
     x3 = sparse.COO(x0)
     x4 = sparse.COO(x0, fill_value=5)
-    return [x0, x1, x2, x3, x4]
+    # fully populated operands (nnz == size): the degenerate pattern for which a densification could be tempted to
+    # hand out the operand's own storage.  5: COO (cache-enabled), 6: GCXS
+    c = (np.arange(12).reshape(3, 4) % 5) + 1
+    x5 = sparse.COO.from_numpy(c)
+    x5.enable_caching()
+    x6 = sparse.GCXS.from_numpy(c + 2)
+    assert x5.nnz == x5.size and x6.nnz == x6.size
+    return [x0, x1, x2, x3, x4, x5, x6]
 
 
 def alias_map(arrs):
@@ -120,6 +127,9 @@ def arrays_bytes(arrs):
     for x in arrs:
         if hasattr(x, "coords"):
             out.append((x.coords.tobytes(), x.data.tobytes(), tuple(x.shape), repr(x.fill_value), str(x.data.dtype)))
+        elif hasattr(x, "indptr"):     # GCXS
+            out.append((x.data.tobytes(), x.indices.tobytes(), x.indptr.tobytes(), tuple(x.shape),
+                        repr(x.fill_value), str(x.data.dtype)))
         else:
             out.append((x.tobytes(), tuple(x.shape), str(x.dtype)))
     return out
@@ -196,7 +206,21 @@ def real_call(arrs, memo, spec):
         # operations that touch NO shared mutable state even on a cache-enabled array (checked: they hit none of
         # the protocols' scheduling points).  NB: reductions (x.sum) are NOT among them — COO.reduce goes through
         # self.transpose / .reshape and hence through the cache; they are exercised by the mixed workloads.
-        return {"abs": lambda: abs(x), "neg": lambda: -x, "idx": lambda: x[..., 1], "nnz": lambda: x.nnz}[spec[2]]()
+        return {"abs": lambda: abs(x), "neg": lambda: -x, "idx": lambda: x[..., 1], "nnz": lambda: x.nnz,
+                "dense": lambda: x.todense()}[spec[2]]()
+    if k == "D":
+        # densify a shared operand, then the CALLER post-processes its own result in place (legitimate: the array
+        # is the caller's).  The value of the call is the array after the write.
+        x = arrs[spec[1]]
+        d = x.todense() if spec[2] == "todense" else x.maybe_densify(max_size=10 ** 6, min_density=0)
+        d += 1
+        d *= 2
+        return d
+    if k == "W":
+        # the same for a sparse result that is a fresh array (element-wise): write into result.data
+        r = -arrs[spec[1]]
+        r.data *= 3
+        return r
     raise ValueError(spec)
 
 
@@ -238,6 +262,8 @@ class KeyMap:
             return f"(CAttr {spec[1]} {'true' if spec[2] == 'csc' else 'false'})"
         if spec[0] == "M":
             return f"(CMemo {k})"
+        if spec[0] == "D":
+            return f"(CDenseWrite {k})"
         return f"(CPure {k})"
 
 
@@ -364,7 +390,21 @@ def mixed_operands(dt_a="int64", dt_b="int64"):
     x.enable_caching()
     z.enable_caching()
     d = (np.arange(15).reshape(5, 3) % 3).astype(dt_b)
-    return {"x": x, "y": y, "z": z, "d": d, "xa": sparse.COO(x), "za": sparse.COO(z)}
+    full = sparse.COO.from_numpy((np.arange(20).reshape(4, 5) % 4 + 1).astype(dt_a))
+    full.enable_caching()
+    gfull = sparse.GCXS.from_numpy((np.arange(20).reshape(4, 5) % 3 + 2).astype(dt_a))
+    return {"x": x, "y": y, "z": z, "d": d, "xa": sparse.COO(x), "za": sparse.COO(z), "full": full, "gfull": gfull}
+
+
+def _inplace(d):
+    d += 1
+    d *= 2
+    return d
+
+
+def _inplace_data(r):
+    r.data *= 3
+    return r
 
 
 MIXED_OPS = {
@@ -390,6 +430,20 @@ MIXED_OPS = {
     "as_gcxs": lambda o: o["z"].asformat("gcxs"),
     "as_dok": lambda o: o["y"].asformat("dok"),
     "todense": lambda o: o["x"].todense(),
+    # callers that write in place into the result they were handed, on fully populated shared operands, and the
+    # read-only calls whose value would notice
+    "dense_inplace_full": lambda o: _inplace(o["full"].todense()),
+    "dense_inplace_gcxs": lambda o: _inplace(o["gfull"].todense()),
+    "maybe_densify_inplace": lambda o: _inplace(o["full"].maybe_densify(max_size=10 ** 6, min_density=0)),
+    "matmul_dense_inplace": lambda o: _inplace(o["full"] @ o["d"]),
+    "dense_inplace_sparse_operand": lambda o: _inplace(o["x"].todense()),
+    "neg_data_inplace": lambda o: _inplace_data(-o["full"]),
+    "ew_data_inplace": lambda o: _inplace_data(o["gfull"] * 2),
+    "full_dense": lambda o: o["full"].todense(),
+    "full_sum": lambda o: o["full"].sum(axis=0),
+    "full_T": lambda o: o["full"].T,
+    "gfull_dense": lambda o: o["gfull"].todense(),
+    "gfull_sum": lambda o: o["gfull"].sum(axis=1),
     # the same through a second array object sharing the cache (COO(x))
     "alias_transpose": lambda o: o["xa"].transpose((2, 0, 1)),
     "alias_reshape": lambda o: o["xa"].reshape((12, 5)),
@@ -521,6 +575,8 @@ def scenarios(tier, rng):
     A = lambda a, w: ("A", a, w)            # noqa: E731
     M = lambda *n: ("M", n)                 # noqa: E731
     P = lambda a, n: ("P", a, n)            # noqa: E731
+    D = lambda a, how: ("D", a, how)        # noqa: E731
+    W = lambda a: ("W", a)                  # noqa: E731
     a0, a1, a2 = AXES3[0], AXES3[1], AXES3[2]
     s0, s1, s2 = SHAPES3[0], SHAPES3[1], SHAPES3[2]
     ex = [
@@ -549,6 +605,12 @@ def scenarios(tier, rng):
         dict(name="alias_2d_T_and_attrs", setup=[], threads=[[T(2, (1, 0)), A(2, "csr")], [T(1, (1, 0))]]),
         dict(name="A_csr_csc_vs_csr", setup=[], threads=[[A(1, "csr"), A(1, "csc")], [A(1, "csr")]]),
         dict(name="fillcopy_T_own_cache", setup=[T(0, a0)], threads=[[T(4, a0)], [T(0, a1), T(3, a0)]]),
+        # --- results are private buffers: a thread writes in place into the dense (or fresh sparse) result it was
+        #     handed, on FULLY POPULATED shared operands; the others' results and the operand must not notice
+        dict(name="dense_write_full_coo", setup=[], threads=[[D(5, "todense"), P(5, "dense")], [P(5, "dense"), P(5, "neg")]]),
+        dict(name="dense_write_full_gcxs", setup=[], threads=[[D(6, "todense")], [P(6, "dense"), D(6, "todense")]]),
+        dict(name="maybe_densify_write_vs_cache", setup=[], threads=[[D(5, "maybe"), T(5, (1, 0))], [T(5, (1, 0)), P(5, "dense")]]),
+        dict(name="sparse_result_write", setup=[], threads=[[W(5), P(5, "dense")], [P(5, "neg"), W(0)]]),
         # --- attribute memo
         dict(name="A_csr_vs_csc", setup=[], threads=[[A(1, "csr")], [A(1, "csc")]]),
         dict(name="A_csc_vs_csc", setup=[], threads=[[A(1, "csc")], [A(1, "csc")]]),
@@ -588,6 +650,8 @@ def scenarios(tier, rng):
     pool = ([T(0, ax) for ax in AXES3] + [R(0, sh) for sh in SHAPES3[:4]] + [T(1, (1, 0))] +
             [R(1, sh) for sh in SHAPES2[:2]] + [A(1, "csr"), A(1, "csc")] +
             [M("int64",), M("int8", "int64")] + [P(0, "abs"), P(1, "neg"), T(0, (0, 1, 2))] +
+            [D(5, "todense"), D(6, "todense"), D(5, "maybe"), D(0, "todense"), W(5), W(1), P(5, "dense"), P(6, "dense"),
+             P(6, "neg"), T(5, (1, 0))] +
             [T(3, ax) for ax in AXES3[:3]] + [R(3, SHAPES3[0]), T(2, (1, 0)), A(2, "csc"), T(4, AXES3[0]), R(4, SHAPES3[1])])
     rnd = []
     for i in range(8 if tier == "quick" else 30):
@@ -598,7 +662,7 @@ def scenarios(tier, rng):
 
 
 # ------------------------------------------------------------------ Coq literals
-NDIMS = {0: 3, 1: 2, 2: 2, 3: 3, 4: 3}
+NDIMS = {0: 3, 1: 2, 2: 2, 3: 3, 4: 3, 5: 2, 6: 2}
 
 
 def case_literal(scn, table, execu, alias=None):
@@ -790,7 +854,9 @@ def campaign(build, tier, seed, report, budget=1):
             if not run["same"]:
                 viol.append({"property": "C13", "op": "operand_mutated", "kind": "value", "clause": None,
                              "case": run, "impl": run["outs"], "replay_py": _mixed_replay(j),
-                             "what": "an operand's bytes changed during a scheduled mixed run"})
+                             "what": "an operand's bytes changed during a scheduled mixed run (the calls' deviations "
+                                     "in this run are consequences and are not listed separately)"})
+                continue
             for p, o, x in zip(run["progs"], run["outs"], run["expected"], strict=True):
                 for nm, got, exp in zip(p, o, x, strict=True):
                     mixed_calls += 1
@@ -822,7 +888,8 @@ def campaign(build, tier, seed, report, budget=1):
                          "case": {"stress": j}, "impl": r["details"][:3], "replay_py": _stress_replay(j),
                          "what": RACE + "free-running threads: RuntimeError('deque mutated during iteration')"})
         if c["mismatch"] or c["other_exc"] or c["operand_changed"]:
-            viol.append({"property": "C13", "op": "stress", "kind": "value", "clause": None,
+            viol.append({"property": "C13", "op": "operand_mutated" if c["operand_changed"] else "stress",
+                         "kind": "value", "clause": None,
                          "case": {"stress": j}, "impl": r["details"], "replay_py": _stress_replay(j),
                          "what": "free-running threads: outcome differs from the sequential run"})
     if broken_jobs:
